@@ -30,7 +30,7 @@ PROP = {
     "outside": [
         "iter_all + FromIterator ('replaying its full iteration rebuilds a map'): NOT decided. The rebuild harness ran CBMC out of memory after every 3-operation history (14 GB) and after every 2-operation history (28 GB limit, 472 s); it is kept in the harness file but not registered",
         "schedules: Kani does not model threads, so 'tags created from any number of threads are distinct' is NOT decided; only sequential behaviour is",
-        "histories longer than 6 operations, nesting deeper than 2, more than 2 keys",
+        "histories longer than 6 operations (8 with the fixed prefixes), nesting deeper than 3, more than 2 keys",
         "GroupingVec (Vec-backed) histories: its backing Vec<Option<V>> resizes on a symbolic key; only the HashMap-backed instantiation is decided",
         "interner: strings longer than 2 bytes, more than 3 strings (and of 3 strings only the length triple 1,2,1), the serde rebuild path; the serde rebuild path",
         "matcher: patterns longer than 5, texts longer than 12, alphabets larger than 3",
@@ -39,6 +39,7 @@ PROP = {
     "obligations": [
         G("c20_grouping_hashmap_merged4", "every history of 4 operations over {begin, end, insert local, insert global} x 2 keys x 2 values, depth <= 2"),
         G("c20_grouping_hashmap_prefix_local_then4", "from inside an open group with one local binding (key, value symbolic): every history of 4 further operations, depth <= 2 (reaches 6-deep scenarios such as local/begin/global/end/end)", timeout=1500),
+        G("c20_grouping_hashmap_depth3_prefix_then4", "from inside two open groups, each with one local binding (keys, values symbolic): every history of 4 further operations, depth <= 3", tier="thorough", timeout=1800),
         G("c20_grouping_hashmap_merged5", "every history of 5 operations, depth <= 2", tier="thorough", timeout=1200),
         G("c20_grouping_hashmap_merged6", "every history of 6 operations, depth <= 2", tier="thorough", timeout=1800),
         M("c20_matcher_m1_n6", "pattern length 1, text length 6, alphabet {a,b}: all 2^7 instances"),
